@@ -2225,7 +2225,11 @@ func c08panicLine(out string) string {
 
 func c08cause(reason string) string {
 	var out []string
-	for _, r := range strings.Split(reason, "+") {
+	parts := strings.Split(reason, "+")
+	for _, r := range parts {
+		if r == "big" && len(parts) > 1 {
+			continue // too large for the model driver to evaluate every hypothesis; the others say why
+		}
 		switch r {
 		case "id":
 			out = append(out, "msgid-split-across-chunks")
